@@ -275,6 +275,11 @@ impl Scenario for C08 {
     let t_sub = w.now();
     let mut trace = String::new();
     let mut spurious = 0u64;
+    let mut overshoots = 0u64;
+    let period_ns = match &case.src {
+      Src::Interval { p, .. } | Src::IntervalAt { p, .. } => *p as u64 * MS,
+      _ => 0,
+    };
     let release = |gates: &Gates| {
       let wk = {
         let mut g = gates.lock().unwrap();
@@ -313,6 +318,11 @@ impl Scenario for C08 {
             }
           }
           Act::Advance(ms) => {
+            if let Some(d) = w.shared.next_deadline() {
+              if w.now() + *ms as u64 * MS >= d + period_ns.max(MS) {
+                overshoots += 1;
+              }
+            }
             w.advance_by(*ms as u64 * MS);
             trace.push_str(&format!("+{} ", ms));
           }
@@ -465,10 +475,10 @@ impl Scenario for C08 {
     Ok(Outcome {
       violation,
       trace_hash: h,
-      nontrivial: spurious > 0 || jumps > 0 || multi > 0 || !case.prompt,
+      nontrivial: spurious > 0 || overshoots > 0 || jumps > 0 || multi > 0 || !case.prompt,
       sim_ns: sim,
       steps: case.acts.len() as u64,
-      faults: vec![("spurious_poll", spurious), ("clock_jump_over_2_deadlines", jumps), ("late_executor(scripted clock)", (!case.prompt) as u64)],
+      faults: vec![("spurious_poll", spurious), ("clock_jump_past_a_deadline_by_a_period_or_more", overshoots), ("late_executor(scripted clock)", (!case.prompt) as u64)],
       reach: vec![],
       resolved: None,
       sample,
